@@ -359,13 +359,12 @@ mutant("C16-M14", "C16", "R16d", "effects: uncertainty column written from the b
 mutant("C16-M15", "C16", "R16d", "population sheet header renamed on the writer", DA, "ProjectData._write_pops", "sheet.write(current_row, 1, \"Full Name\", self._formats[\"center_bold\"])", "sheet.write(current_row, 1, \"Display Name\", self._formats[\"center_bold\"])")
 mutant("C16-M16", "C16", "R16c", "new handler reading its own failed assignment", PR, "ProgramSet._read_spending", "            prog = self.programs[tdve.name]\n", "            try:\n                prog = self.programs[tdve.name]\n            except KeyError:\n                raise Exception('Unknown program %s' % prog.name)\n")
 twin("C16-T2", "C16", "labels hoisted into shared constants would still be literals at the use sites: reader accepts an extra legacy alias", PR, "ProgramSet._read_spending", "            if \"Capacity\" in tdve.ts:", "            if \"Capacity limit\" in tdve.ts:\n                set_ts(prog, \"capacity_constraint\", tdve.ts[\"Capacity limit\"])\n            elif \"Capacity\" in tdve.ts:")
-twin("C16-T3", "C16", "handler uses the loop key instead of the failed local", PA, "ParameterSet.load_calibration", "                    logger.debug(f\"{par.name} in {pop_name} was not found, ignoring y-factors for this quantity\")\n                else:\n                    logger.debug(f\"{par.name} was not found, ignoring y-factors for this quantity\")", "                    logger.debug(f\"{par_name} in {pop_name} was not found, ignoring y-factors for this quantity\")\n                else:\n                    logger.debug(f\"{par_name} was not found, ignoring y-factors for this quantity\")")
 
 # =============================================================================================== C17
 mutant("C17-M2", "C17", "R17c", "ParameterSet.sample without dcp", PA, "ParameterSet.sample", "new = sc.dcp(self)", "new = self")
 mutant("C17-M3", "C17", "R17c", "TimeSeries.sample edits self.vals", U, "TimeSeries.sample", "                new.vals = [v + delta for v in new.vals]", "                self.vals[:] = [v + delta for v in self.vals]")
 mutant("C17-M4", "C17", "R17d", "draw not scaled by sigma", U, "TimeSeries.sample", "            delta = self.sigma * np.random.randn(1)[0]", "            delta = np.random.randn(1)[0]")
-mutant("C17-M6", "C17", "R17a", "new pool submission of a sampling function without reseed", RS, "Ensemble.run_sims", "            self.samples = sc.parallelize(", "            extra = parallel_progress(functools.partial(_sample_and_map, proj=proj, parset=parset), 2)\n            self.samples = sc.parallelize(")
+mutant("C17-M6", "C17", "R17a", "new pool submission of a sampling function without reseed", RS, "Ensemble.run_sims", "            self.samples = sc.parallelize(", "            extra = sc.parallelize(_sample_and_map, iterarg=2, kwargs={\"proj\": proj, \"parset\": parset})\n            self.samples = sc.parallelize(")
 mutant("C17-M7", "C17", "R17d", "Covout.sample draws even when sigma is None", PR, "Covout.sample", "        if self.sigma is None:\n            return\n", "")
 mutant("C17-M8", "C17", "R17c", "ProgramSet.sample perturbs the source covouts", PR, "ProgramSet.sample", "        for covout in new.covouts.values():", "        for covout in self.covouts.values():")
 mutant("C17-M9", "C17", "R17b", "Program.sample reads a misspelt attribute", PR, "Program.sample", "self.saturation = self.saturation.sample(constant)", "self.saturation = self.saturations.sample(constant)")
@@ -378,7 +377,7 @@ mutant("C18-M7", "C18", "R18b", "new assert in _validate_names", FW, "ProjectFra
 mutant("C18-M8", "C18", "R18b", "a converting handler narrowed to except ValueError", DA, "ProjectData.from_spreadsheet", "                try:\n                    self._read_pops(sheet)\n                except Exception as e:", "                try:\n                    self._read_pops(sheet)\n                except ValueError as e:")
 mutant("C18-M9", "C18", "R18a", "new message with too few values", FW, "ProjectFramework._validate_names", "raise InvalidFramework('Code name \"%s\" is not valid: it cannot contain any of these reserved symbols %s' % (name, FS.RESERVED_SYMBOLS))", "raise InvalidFramework('Code name \"%s\" is not valid: it cannot contain any of these reserved symbols %s' % (name,))")
 mutant("C18-M10", "C18", "R18a", "str.format with a missing argument", M, "Population.get_links", "raise NotFoundError(\"Object '{0}' not found.\".format(name))", "raise NotFoundError(\"Object '{0}' not found in {1}.\".format(name))", accept_exit2=False)
-mutant("C18-M11", "C18", "R18c", "new dead branch over a literal list", DA, "ProjectData.validate", "                                if obj_type in [\"comps\", \"characs\"] or", "                                if obj_type in [\"comp\", \"charac\"] or")
+mutant("C18-M11", "C18", "R18c", "new dead branch over a literal list", DA, "ProjectData._validate", "                                if obj_type in [\"comps\", \"characs\"] or", "                                if obj_type in [\"comp\", \"charac\"] or")
 mutant("C18-M12", "C18", "R18b", "program book reader raises KeyError-converting handler removed", PR, "ProgramSet.from_spreadsheet", "        try:\n            self._read_spending(workbook[\"Spending data\"], _allow_missing_data=_allow_missing_data)\n        except Exception as e:\n            message = 'Error on sheet \"Spending data\"'\n            raise InvalidProgramBook(\"%s -> %s\" % (message, e)) from e", "        self._read_spending(workbook[\"Spending data\"], _allow_missing_data=_allow_missing_data)")
 mutant("C18-M13", "C18", "R18a", "attribute of a dict record read in a message", FW, "ProjectFramework._validate_parameters", "raise InvalidFramework('Parameter \"%s\" is marked \"is derivative\" but it does not have a parameter function' % (par_name))", "raise InvalidFramework('Parameter \"%s\" is marked \"is derivative\" but it does not have a parameter function' % (par.code_name))")
 twin("C18-T1", "C18", "raise inside a helper called under a converting handler", DA, "ProjectData._read_pops", "        self.pops = sc.odict()\n", "        self.pops = sc.odict()\n        if sheet is None:\n            raise Exception(\"no sheet\")\n")
@@ -412,3 +411,46 @@ mutant("C20-M6", "C20", "R20a", "new sticky default in time_aggregate", PL, "Plo
 mutant("C20-M7", "C20", "R20d", "sanitize_cascade returns early for dict cascades without validating", CS, "sanitize_cascade", "        cascade_name = None\n        cascade_dict = cascade\n", "        return None, cascade, None\n")
 mutant("C20-M8", "C20", "R20c", "Result.get_variable caches on the model", RS, "Result.get_variable", "        if pops is not None:", "        self.model._last_query = name\n        if pops is not None:", accept_exit2=False)
 twin("C20-T2", "C20", "np.array(vals, copy=True)", PL, "Series.__init__", "self.vals = np.copy(vals)", "self.vals = np.array(vals, copy=True)")
+
+# =============================================================================================== re-introduction of every repaired defect
+# (the fix: commits of /repo applied in reverse to the scratch copy; each must make the rule that found the defect fire again)
+def reintro(id, prop, rule, commit, what):
+    VARIANTS.append(dict(id=id, prop=prop, kind="mutant", rule=rule, what="re-intro: " + what, edits=[dict(reverse_commit=commit)]))
+
+
+reintro("C19-M1", "C19", "R19a", "b2e7663", "default-allow validator in parse_function")
+reintro("C03-M6", "C03", "R03b", "5117305", "int()/ceil on the raw grid quotient")
+reintro("C15-M12", "C15", "R15b", "5117305", "non-idempotent sim_end setter")
+reintro("C05-M1", "C05", ["R05a", "R05b"], "c57d6af", "math.ceil(duration / dt) keyring size, siblings disagree")
+reintro("C15-M2", "C15", "R15a", "991907e", "run_optimization restores sim_end outside finally")
+reintro("C15-M6", "C15", "R15d", "50ec2d8", "Population object compared with pop_names")
+reintro("C16-M1", "C16", "R16a", "b36f5ea", "stale Covout cache after reconciliation / remove_program")
+reintro("C16-M3", "C16", "R16b", "9495fbc", "remove_pop uses a (program, population) key")
+reintro("C16-M4", "C16", "R16c", "f375ee8", "load_calibration handler reads the failed assignment")
+reintro("C17-M5", "C17", "R17b", "ce8bc72", "Covout.sample reads self.interactions")
+reintro("C17-M1", "C17", "R17a", "6896873", "forked workers not reseeded")
+reintro("C18-M1", "C18", "R18a", "02ae170", "malformed error construction in the loaders")
+reintro("C18-M5", "C18", "R18c", "1104fc3", "dead `obj_type == 'par'` branch")
+reintro("C20-M1", "C20", "R20a", "60a303f", "sticky default aggregation in PlotData")
+reintro("C20-M2", "C20", "R20b", "47d835e", "alias-then-augment in get_cascade_data")
+reintro("C11-M6", "C11", "R11e", "d0070b3", "get_equivalent_alloc decides the program kind from coverage units")
+reintro("C13-M4", "C13", ["R13e", "R13f"], "d0070b3", "linear interpolation / wrong one-off test in get_equivalent_alloc")
+reintro("C18-M14", "C18", "R18b", "743b867", "validate_cascade raises plain Exception")
+reintro("C18-M15", "C18", "R18b", "2f801b3", "ProgramSet.validate raises plain Exception")
+reintro("C18-M16", "C18", "R18b", "781d182", "parse_function / plot string errors escape ProjectFramework as AssertionError/SyntaxError")
+reintro("C18-M17", "C18", "R18b", "d91396b", "validate_category's plain Exception escapes the loaders")
+reintro("C18-M18", "C18", "R18b", "2a7f4c3", "ProjectData.validate asserts escape as AssertionError")
+
+# mutants that only make sense on the repaired tree
+mutant("C19-M2", "C19", "R19a", "ast.Attribute added to the allowed kinds", FP, None, "    ast.Name,\n    ast.Constant,", "    ast.Name,\n    ast.Attribute,\n    ast.Constant,")
+mutant("C19-M6", "C19", "R19a", "callee test weakened to hasattr(node.func, 'id')", FP, "parse_function", "assert isinstance(node.func, ast.Name) and node.func.id in supported_functions", "assert (not hasattr(node.func, \"id\")) or node.func.id in supported_functions")
+mutant("C19-M12", "C19", "R19a", "keyword arguments allowed again", FP, None, "    ast.Load,\n    ast.operator,", "    ast.Load,\n    ast.keyword,\n    ast.operator,")
+twin("C19-T1", "C19", "allowed kinds tested with type(node) in a set", FP, "parse_function", "assert isinstance(node, _allowed_nodes)", "assert isinstance(node, _allowed_nodes) and type(node) not in {ast.Attribute, ast.Subscript}")
+mutant("C05-M2", "C05", "R05b", "one sibling bypasses the shared keyring helper", M, "TimedLink.preallocate", "self._vals = np.empty((_keyring_size(duration, dt), tvec.size), order=\"F\")", "self._vals = np.empty((max(1, int(round(duration / dt))), tvec.size), order=\"F\")")
+twin("C05-T1", "C05", "keyring helper renamed", edits=[dict(file=M, old="_keyring_size", new="_n_keyring_rows", all=True)])
+mutant("C03-M7", "C03", "R03b", "grid helper loses its snap-to-integer test", "atomica/project.py", "_n_steps", "    if abs(n - np.round(n)) < 1e-9 * max(1.0, abs(n)):\n        return int(np.round(n))\n    else:\n        return int(np.ceil(n))", "    return int(np.ceil(n))")
+twin("C03-T3", "C03", "grid count helper that rounds differently", "atomica/project.py", "_n_steps", "    if abs(n - np.round(n)) < 1e-9 * max(1.0, abs(n)):\n        return int(np.round(n))\n    else:\n        return int(np.ceil(n))", "    if np.isclose(n, np.round(n), rtol=1e-9, atol=1e-9):\n        n = np.round(n)\n    return int(np.ceil(n))")
+twin("C16-T1", "C16", "refresh by one sweep over covouts.values() already in place; alias local before the edit", RC, "_update_progset", "            progset.covouts[(target[1], target[2])].baseline = x", "            cv = progset.covouts[(target[1], target[2])]\n            cv.baseline = x")
+twin("C17-T1", "C17", "reseed with an explicit entropy source", U, "_worker_init", "    np.random.seed()", "    np.random.seed(int.from_bytes(os.urandom(4), \"little\"))")
+twin("C20-T1", "C20", "per-item local named differently", edits=[dict(file=PL, old="output_method", new="agg_for_this_output", all=True)])
+twin("C15-T1", "C15", "run_optimization restores in finally via a helper local", PJ, "Project.run_optimization", "            self.settings.sim_end = original_end  # Note that", "            end_year_to_restore = original_end\n            self.settings.sim_end = original_end  # Note that")
